@@ -192,7 +192,7 @@ func keyBuilders(c *core.Ctx) (builders map[*ssa.Function]bool, sites []core.Sit
 		if idx >= len(args) {
 			continue
 		}
-		for _, o := range core.Origins(args[idx], core.OriginOpts{Prog: c.Prog}) {
+		for _, o := range core.Origins(args[idx], core.OriginOpts{Prog: c.Prog, ThroughPar: true, Depth: 2}) {
 			call, ok := o.(*ssa.Call)
 			if !ok {
 				c.Bad("key-origin:"+core.FuncName(s.Fn), s.Call.Pos(), s.Fn, "cache key argument originates from a key-builder call", "origin is "+core.Describe(o))
@@ -545,17 +545,20 @@ func r07c(c *core.Ctx) {
 }
 
 func isKeyBuilderCall(c *core.Ctx, fn *ssa.Function, call *ssa.Call) bool {
-	// a call whose result flows into a cache backend key parameter within fn
-	for _, cs := range core.Calls(fn) {
-		idx, ok := cacheKeyParams[core.CallName(cs)]
-		if !ok {
-			continue
-		}
-		args := cs.Common().Args
-		if idx < len(args) {
-			for _, o := range core.Origins(args[idx], core.OriginOpts{}) {
-				if o == call {
-					return true
+	// a call whose result flows into a cache backend key parameter within fn — or within a helper of the package that
+	// fn hands the key to
+	for _, hf := range helperReach(fn, 1) {
+		for _, cs := range core.Calls(hf) {
+			idx, ok := cacheKeyParams[core.CallName(cs)]
+			if !ok {
+				continue
+			}
+			args := cs.Common().Args
+			if idx < len(args) {
+				for _, o := range core.Origins(args[idx], core.OriginOpts{Prog: c.Prog, ThroughPar: hf != fn, Depth: 1}) {
+					if o == call {
+						return true
+					}
 				}
 			}
 		}
@@ -642,7 +645,7 @@ func r07d(c *core.Ctx) {
 				return
 			}
 			// the Cost callback of otter reads len(value.v) without the lock: reviewed
-			if fn.Parent() != nil && strings.HasSuffix(core.FuncName(fn.Parent()), "NewMemoryCache") && r.Name == "v" {
+			if strings.Contains(core.FuncName(fn), "NewMemoryCache$") && r.Name == "v" {
 				c.Reviewed("entry-lock:"+core.FuncName(fn)+":"+r.Name, fa.Pos(), fn, "access under entry lock", "otter Cost callback runs inside Set, before the entry is published to readers and before any release")
 				n++
 				return
